@@ -157,6 +157,17 @@ def _observe_fill(case):
                 obs.append(a)
             except Exception as e:
                 obs.append({"fn": f"fill_text({mode.name})", "exc": repr(e)})
+    # the first line may start at a column > 0 (text appended after a label): plain WRAP, no indents, so that D15 is not in play
+    for col in (3, 7):
+        try:
+            r = fill_text(text, Wrap.WRAP, width=width, initial_column=col)
+            a = vocab.abstract_lines(toks, r.split("\n") if r else [], "", "", True)
+            if a["linelen"]:
+                a["linelen"][0] += col              # the first line starts at column `col` without any indent text
+            a.update(fn=f"fill_text(WRAP,initial_column={col})", ic=col, so=0, virtual_ic=True)
+            obs.append(a)
+        except Exception as e:
+            obs.append({"fn": f"fill_text(WRAP,initial_column={col})", "exc": repr(e)})
     return cid, words, width, toks, obs
 
 
